@@ -31,6 +31,9 @@ class Unsupported(Exception):
 
 BASE_SORTS = {"int": z3.IntSort, "bool": z3.BoolSort, "real": z3.RealSort, "str": z3.StringSort}
 CSTR = ("list", ("char",))
+# record classes (name -> sidecar CLASSES entry) of the sidecar of the engine created last; lets records sit inside
+# containers (fresh list[rec[..]], dict keys that are records)
+REC_TABLE = {}
 
 
 def parse_shape(text):
@@ -55,6 +58,8 @@ def parse_shape(text):
                 return ("list", conv(args[0]))
             if head == "tuple":
                 return ("tuple", tuple(conv(a) for a in args))
+            if head == "hlist":
+                return ("hlist", tuple(conv(a) for a in args))
             if head == "dict":
                 return ("dict", conv(args[0]), conv(args[1]))
             if head == "set":
@@ -83,6 +88,14 @@ class VTuple:
 
     def __repr__(self):
         return f"VTuple({self.items})"
+
+
+class VHList(VTuple):
+    """fixed-length list literal with elements of different shapes (e.g. [i, "?", 0]): value semantics like VList
+    (writes go back through the access path), item assignment by constant index; compares unequal to a tuple"""
+
+    def __repr__(self):
+        return f"VHList({self.items})"
 
 
 class VList:
@@ -206,7 +219,7 @@ def tmap(f, v):
     if type(v).__name__ == "VVec":
         return type(v)([f(x) for x in v.c])
     if isinstance(v, VTuple):
-        return VTuple([tmap(f, x) for x in v.items])
+        return type(v)([tmap(f, x) for x in v.items])
     if isinstance(v, VList):
         return VList(tmap(f, v.length), tmap(f, v.elems), v.eshape)
     if isinstance(v, VRef):
@@ -241,7 +254,7 @@ def tzip(f, a, b):
     if isinstance(a, VTuple):
         if not isinstance(b, VTuple) or len(a.items) != len(b.items):
             raise Unsupported("tuple structure mismatch")
-        return VTuple([tzip(f, x, y) for x, y in zip(a.items, b.items)])
+        return type(a)([tzip(f, x, y) for x, y in zip(a.items, b.items)])
     if isinstance(a, VList):
         if not isinstance(b, VList):
             raise Unsupported("list structure mismatch")
@@ -282,6 +295,15 @@ def key_sorts(kshape):
         for s in kshape[1]:
             out += key_sorts(s)
         return out
+    if kshape[0] == "rec" and kshape[1] in REC_TABLE:
+        # a record used as a key: its fields in declaration order (dataclass eq/hash compare exactly these)
+        out = []
+        for s in REC_TABLE[kshape[1]]["fields"].values():
+            out += key_sorts(parse_shape(s))
+        return out
+    if kshape[0] == "opt":
+        # Optional key: (is None, payload); the payload is normalised to a default when None (see key_terms)
+        return [z3.BoolSort()] + key_sorts(kshape[1])
     if kshape[0] in ("ref", "enum", "char"):
         return [z3.IntSort()]
     return [BASE_SORTS[kshape[0]]()]
@@ -305,7 +327,23 @@ def key_terms(k):
         for x in k.fields.values():
             out += key_terms(x)
         return out
+    if isinstance(k, VOpt):
+        # None is one key: the (arbitrary) payload of a None is replaced by the sort's default
+        n = to_z3(k.isnone)
+        return [n] + [z3.If(n, _sort_default(t.sort()), t) for t in key_terms(k.val)]
     return [to_z3(k)]
+
+
+def _sort_default(s):
+    if s == z3.IntSort():
+        return z3.IntVal(0)
+    if s == z3.BoolSort():
+        return z3.BoolVal(False)
+    if s == z3.RealSort():
+        return z3.RealVal(0)
+    if s == z3.StringSort():
+        return z3.StringVal("")
+    raise Unsupported(f"no default for key sort {s}")
 
 
 def fresh(shape, name, idx=()):
@@ -331,6 +369,8 @@ def fresh(shape, name, idx=()):
         return VVec([leaf(z3.RealSort(), f"{name}.{k}") for k in range(shape[1])])
     if kind == "tuple":
         return VTuple([fresh(s, f"{name}.{k}", idx) for k, s in enumerate(shape[1])])
+    if kind == "hlist":
+        return VHList([fresh(s, f"{name}.{k}", idx) for k, s in enumerate(shape[1])])
     if kind == "list":
         return VList(leaf(z3.IntSort(), name + ".len"), fresh(shape[1], name + ".el", idx + (z3.IntSort(),)), shape[1])
     if kind == "opt":
@@ -342,7 +382,10 @@ def fresh(shape, name, idx=()):
         ks = tuple(key_sorts(shape[1]))
         return VDict(shape[1], shape[2], _mk_arr(name + ".dom", idx + ks, z3.BoolSort()), fresh(shape[2], name + ".val", idx + ks))
     if kind == "rec":
-        raise Unsupported("fresh record needs class table; use Engine.fresh")
+        info = REC_TABLE.get(shape[1])
+        if info is None:
+            raise Unsupported("fresh record needs class table; use Engine.fresh")
+        return VRec(shape[1], {f: fresh(parse_shape(s), f"{name}.{f}", idx) for f, s in info["fields"].items()})
     raise Unsupported(f"fresh of shape {shape}")
 
 
@@ -361,10 +404,17 @@ def sel(tree, *idx):
 
     def f(leaf):
         for i in idx:
-            leaf = z3.Select(leaf, i)
+            leaf = _select(leaf, i)
         return leaf
 
     return tmap(f, tree)
+
+
+def _select(arr, i):
+    """arr[i]; a lambda-array applied to an index is beta-reduced on the spot (same term up to beta, no lambda left)"""
+    if z3.is_quantifier(arr) and arr.is_lambda() and arr.num_vars() == 1 and isinstance(i, z3.ExprRef) and arr.var_sort(0) == i.sort():
+        return z3.substitute_vars(arr.body(), i)
+    return z3.Select(arr, i)
 
 
 def sto(tree, idx, val):
@@ -414,6 +464,8 @@ def shape_of(v):
         return ("char",)
     if type(v).__name__ == "VVec":
         return ("vec", len(v.c))
+    if isinstance(v, VHList):
+        return ("hlist", tuple(shape_of(x) for x in v.items))
     if isinstance(v, VTuple):
         return ("tuple", tuple(shape_of(x) for x in v.items))
     if isinstance(v, VList):
